@@ -127,7 +127,7 @@ func (r *ReadGroup) Tags(fn func(t Tag, value string)) {
 		fn(descriptionTag, r.description)
 	}
 	if !r.date.IsZero() {
-		fn(dateTag, r.date.Format(iso8601TimeDateN))
+		fn(dateTag, formatDate(r.date))
 	}
 	if r.flowOrder != "" {
 		fn(flowOrderTag, r.flowOrder)
@@ -169,7 +169,7 @@ func (r *ReadGroup) Get(t Tag) string {
 	case descriptionTag:
 		return r.description
 	case dateTag:
-		return r.date.Format(iso8601TimeDateN)
+		return formatDate(r.date)
 	case flowOrderTag:
 		if r.flowOrder == "" {
 			return "*"
@@ -283,7 +283,7 @@ func (r *ReadGroup) String() string {
 		fmt.Fprintf(&buf, "\tDS:%s", r.description)
 	}
 	if (r.date != time.Time{}) {
-		fmt.Fprintf(&buf, "\tDT:%s", r.date.Format(iso8601TimeDateN))
+		fmt.Fprintf(&buf, "\tDT:%s", formatDate(r.date))
 	}
 	if r.flowOrder != "" {
 		fmt.Fprintf(&buf, "\tFO:%s", r.flowOrder)
@@ -313,4 +313,15 @@ func (r *ReadGroup) String() string {
 		fmt.Fprintf(&buf, "\t%s:%s", tp.tag, tp.value)
 	}
 	return buf.String()
+}
+
+// formatDate returns t in the layout dates are written in. The layout has
+// no place for the seconds of a zone offset, so a date in a zone that has
+// them (the local mean time entries of the tz database, say) is written
+// in UTC: the text then still names the same instant.
+func formatDate(t time.Time) string {
+	if _, off := t.Zone(); off%60 != 0 {
+		t = t.UTC()
+	}
+	return t.Format(iso8601TimeDateN)
 }
